@@ -63,9 +63,29 @@ type Verifier struct {
 	curCtr        *Contract
 	curReplay     []replayVar
 	pkgInitDone   map[string]bool
+	allocMark     int64
+	curWrites     map[string]bool
 }
 
 func (v *Verifier) note(s string) { v.notes[s] = true }
+
+// writes to cells that existed before the activation under verification (for frame clauses)
+func (v *Verifier) noteWrite(h *Term) {
+	if h.IsInt() && h.I.Int64() > v.allocMark {
+		isGlobal := false
+		for _, gh := range v.globals {
+			if gh.String() == h.String() {
+				isGlobal = true
+			}
+		}
+		if !isGlobal {
+			return // allocated by this activation
+		}
+	}
+	if v.curWrites != nil {
+		v.curWrites[h.String()] = true
+	}
+}
 
 func (v *Verifier) feasible(st *State) bool { return !st.dead }
 
@@ -124,7 +144,7 @@ func (v *Verifier) emit(fr *Frame, st *State, kind, clause string, goal *Term, w
 			o.Defs = v.curCtr.Defs
 			o.PkgDir = strings.TrimPrefix(strings.TrimPrefix(v.curCtr.Pkg, modulePath), "/")
 		}
-		o.Replay = v.curReplay
+		o.Replay = append(append([]replayVar{}, v.curReplay...), st.extRes...)
 		v.obls = append(v.obls, o)
 	}
 }
@@ -221,6 +241,11 @@ func (v *Verifier) initGhosts(st *State, env *Env) {
 			val = Scalar{Var("ghost0."+g.Name, SBool)}
 		case "string":
 			val = Scalar{Var("ghost0."+g.Name, SString)}
+		case "any":
+			h := Var("ghost0."+g.Name, SInt)
+			tid := UF("tid", SInt, h)
+			st.assume(Le(Int(0), tid))
+			val = Iface{Tid: tid, Box: h}
 		default:
 			fail("ghost var %s: unsupported type %s", g.Name, g.Type)
 		}
@@ -290,6 +315,8 @@ func (v *Verifier) verifyFunc(ctr *Contract, fn *ssa.Function) (err error) {
 	vo.Assumps = append([]*Term{}, st.pc...)
 	v.obls = append(v.obls, vo)
 	fr.entry = st.clone()
+	v.allocMark = 1000 + v.eng.nalloc
+	v.curWrites = map[string]bool{}
 	fr.enter(st, fn.Blocks[0], nil)
 	v.pathsPerFn[ctr.Key] = len(outs)
 	nret := 0
